@@ -663,7 +663,14 @@ RETCODE adfChangeDir ( struct AdfVolume * const vol,
         return rc;
     if ( entry.realEntry )  {
         nSect = entry.realEntry;
+        rc = adfReadEntryBlock ( vol, nSect, &entry );
+        if ( rc != RC_OK )
+            return rc;
     }
+
+    // only a directory can become the current directory
+    if ( entry.secType != ST_DIR )
+        return RC_ERROR;
 
 /*printf("adfChangeDir=%d\n",nSect);*/
     if (nSect!=-1) {
